@@ -256,6 +256,9 @@ type builtState struct {
 	words      []string
 }
 
+// forceMetric >= 0 fixes the distance kind of the vector index buildState constructs
+var forceMetric = -1
+
 func buildState(r *rand.Rand, ck int, t *Trace) builtState {
 	var b builtState
 	b.spec.ck = ck
@@ -296,6 +299,9 @@ func buildState(r *rand.Rand, ck int, t *Trace) builtState {
 		if ck <= 3 {
 			p, ntrain := rndParams(r, ck, false)
 			p.dim = dim
+			if forceMetric >= 0 {
+				p.metric = forceMetric
+			}
 			if ck >= 2 {
 				p.m = pickM(r, dim)
 			}
@@ -316,6 +322,9 @@ func buildState(r *rand.Rand, ck int, t *Trace) builtState {
 			return s, idx
 		}
 		s.hdim, s.hmet, s.hM, s.hefc, s.hefs = dim, r.Intn(3), []int{2, 4, 16}[r.Intn(3)], 8+r.Intn(20), 8+r.Intn(20)
+		if forceMetric >= 0 {
+			s.hmet = forceMetric
+		}
 		idx, _ := comet.NewHNSWIndex(s.hdim, metrics[s.hmet], s.hM, s.hefc, s.hefs)
 		addVecs(idx)
 		return s, idx
@@ -674,6 +683,15 @@ func genC16(r *rand.Rand, t *Trace, thorough bool) {
 			emitRead(t, built[j].spec, built[i].stream, 1, 0, "mismatch.kind")
 		}
 	}
+	// every distance kind as the stream's kind, for every vector index kind (the mismatch loop below then
+	// presents each stream to receivers of the two other kinds: all ordered pairs)
+	for ck := 0; ck <= 4; ck++ {
+		for m := 0; m < 3; m++ {
+			forceMetric = m
+			built = append(built, buildState(r, ck, t))
+		}
+	}
+	forceMetric = -1
 	// one-parameter mismatches for the vector kinds and sub-index presence for hybrid
 	for _, b := range built {
 		s := b.spec
@@ -688,6 +706,7 @@ func genC16(r *rand.Rand, t *Trace, thorough bool) {
 					return true
 				},
 				func(p *vecParams) bool { p.metric = (p.metric + 1) % 3; return true },
+				func(p *vecParams) bool { p.metric = (p.metric + 2) % 3; return true }, // every ordered pair of kinds
 				func(p *vecParams) bool {
 					if p.kind == 1 || p.kind == 3 {
 						p.nlist++
@@ -714,7 +733,7 @@ func genC16(r *rand.Rand, t *Trace, thorough bool) {
 					return false
 				},
 			}
-			names := []string{"dim", "metric", "nlist", "nbits", "M"}
+			names := []string{"dim", "metric", "metric", "nlist", "nbits", "M"}
 			for ai, alt := range alts {
 				s2 := s
 				if alt(&s2.vp) {
@@ -725,9 +744,11 @@ func genC16(r *rand.Rand, t *Trace, thorough bool) {
 				}
 			}
 		case s.ck == 4:
-			for ai := 0; ai < 5; ai++ {
+			for ai := 0; ai < 6; ai++ {
 				s2 := s
 				switch ai {
+				case 5:
+					s2.hmet = (s2.hmet + 2) % 3
 				case 0:
 					s2.hdim++
 				case 1:
